@@ -294,6 +294,20 @@ func TestRegressions(t *testing.T) {
 		p1, p2 := &uni.Inner{X: 1, Y: "one"}, &uni.Inner{X: 2, Y: "two"}
 		runCase(t, "regressions", "TestRegressions", reflect.ValueOf(map[string]*uni.Inner{"a": p1, "b": p2, "c": p1}), false, "marshal")
 	}
+	// a string that is not valid UTF-8 travels as bytes; a later occurrence is a back-reference to that bytes item,
+	// here decoded into pointers to a named string type (found by the thorough tier)
+	raw := uni.MyString("a\x80b")
+	pr := &raw
+	ppr := &pr
+	for _, simple := range []bool{true, false} {
+		runCase(t, "regressions", "TestRegressions", reflect.ValueOf(map[string][1]**uni.MyString{"a\x80b": {ppr}}), simple, "marshal")
+		runCase(t, "regressions", "TestRegressions", reflect.ValueOf([]**uni.MyString{ppr, ppr}), simple, "marshal")
+		runCase(t, "regressions", "TestRegressions", reflect.ValueOf(struct {
+			A string
+			B **uni.MyString
+			C *uni.MyString
+		}{"a\x80b", ppr, pr}), simple, "marshal")
+	}
 }
 
 func TestFinding(t *testing.T) {
